@@ -65,6 +65,8 @@ FUNCS = [
     ('IF(ISNUMBER({X}),{Y},"n")', 2),
 ]
 KINDS = ['same', 'scalar', 'row', 'col', 'first-scalar']
+SHEET_NAMES = ['S', 'S', 'S', 'My Sheet', 'S-1', "Bob's", 'x,y', '1st',
+               'a.b', 'S', 'é', 'a&b', 'S']
 VALUES = [0, 1, 2, 3, -1, 2.5, 10, -4, 7, 0.5, 'a', 'Bc', '12', '#DIV/0!',
           '#N/A', 100, 4, 9, True, False, True, False, 1, 0, 1.0, '1']
 # python-equal but Excel-different neighbours (row-major and across a row end)
@@ -136,13 +138,18 @@ def check_case(rec, senv, template, kind, h, w, th, tw, vals, form='op'):
         tag += ':scalar-error'
     cells = dict(xs)
     cells.update(ys)
-    spec = {'sheets': {'S': cells}}
+    # the workbook's only sheet carries a name that does or does not need
+    # quoting in the member cells' generated formulas
+    S = SHEET_NAMES[(len(formula) + 3 * h + 5 * w + 7 * th + tw) %
+                    len(SHEET_NAMES)]
+    case['sheet'] = S
+    spec = {'sheets': {S: cells}}
     if target is None:
         # a one-cell array formula
-        spec['arrays'] = [dict(sheet='S', ref='K1:K1', formula=formula)]
+        spec['arrays'] = [dict(sheet=S, ref='K1:K1', formula=formula)]
         target = 'K1'
     else:
-        spec['arrays'] = [dict(sheet='S', ref=target, formula=formula)]
+        spec['arrays'] = [dict(sheet=S, ref=target, formula=formula)]
     # expected elements through scalar evaluation
     expected = []
     scalar_formula = '=' + template.format(X='A1', Y='B1')
@@ -178,7 +185,7 @@ def check_case(rec, senv, template, kind, h, w, th, tw, vals, form='op'):
         return
     try:
         model = compile_spec(spec)
-        got = normalise(model.evaluate(f'S!{target}'), th, tw)
+        got = normalise(model.evaluate(f'{S}!{target}'), th, tw)
     except Exception as exc:
         rec.fail(f'{tag}:raises:{exc_key(exc)}', case,
                  f'{formula} over {target} raised {exc!r}'[:400])
@@ -203,7 +210,7 @@ def check_case(rec, senv, template, kind, h, w, th, tw, vals, form='op'):
     try:
         fresh = compile_spec(spec)
         for i, j in itertools.product(range(th), range(tw)):
-            addr = f'S!{TCOLS[j]}{i + 1}'
+            addr = f'{S}!{TCOLS[j]}{i + 1}'
             g = fresh.evaluate(addr)
             e = expected[i][j]
             if not (same(e, g) or (e in (None, '') and g in (None, 0, ''))):
@@ -222,7 +229,7 @@ def check_case(rec, senv, template, kind, h, w, th, tw, vals, form='op'):
     def first_in_thread():
         try:
             box['got'] = normalise(
-                compile_spec(spec).evaluate(f'S!{target}'), th, tw)
+                compile_spec(spec).evaluate(f'{S}!{target}'), th, tw)
         except Exception as exc:        # noqa
             box['exc'] = exc
     worker = threading.Thread(target=first_in_thread)
